@@ -64,13 +64,6 @@ Proof. vm_compute. reflexivity. Qed.
 Theorem C10_no_map_protocol : registry_has_map Registry_protocol = false.
 Proof. vm_compute. reflexivity. Qed.
 
-(* The schema the shells are generated from numbers HttpError's variants Url=0, Io=1, Timeout=2
-   (the two #[serde(skip)] variants are absent); since fix 1cfa90b Rust writes the same indices. *)
-Theorem C10_httperror_schema :
-  lookup Registry_protocol "HttpError" =
-  Some (CEnum [(0%N, ("Url", VarNewType FStr)); (1%N, ("Io", VarNewType FStr)); (2%N, ("Timeout", VarUnit))]).
-Proof. vm_compute. reflexivity. Qed.
-
 (* The trace predicates evaluated on the implementation's observations hold of the model. *)
 Theorem C10_ok_b_model : forall reg f v, has_type reg f v -> verdict_b reg f (encode reg f v) = 0%N.
 Proof. exact model_ok_b. Qed.
@@ -85,14 +78,14 @@ Theorem C10_verdict_b_sound : forall reg f b,
   verdict_b reg f b = 0%N -> exists v, has_type reg f v /\ b = encode reg f v.
 Proof. exact verdict_b_sound. Qed.
 
-(* non-vacuity: a bridge request carrying a key-value Set with a non-UTF-8 value is well-typed, and
-   its encoding is the expected 36 bytes *)
-Definition C10_sample : value :=
-  VList [VInt 7; VEnum 1 (VEnum 1 (VList [VB "6b2f00c3a9"; VB "00ff80"]))].
+(* non-vacuity (on the harness' own test app, so that the example does not depend on how a crux type
+   happens to be declared): a bridge request carrying an Ask with a non-ASCII text is well-typed, its
+   encoding is the expected 27 bytes, an invalid UTF-8 text or an unknown variant is not a value *)
+Definition C10_sample : value := VList [VInt 7; VEnum 0 (VList [VInt 9; VB "6bc3a9"])].
 Example C10_nonvacuous :
-  has_type Registry_kvapp (FTypeName "Request") C10_sample /\
-  encode Registry_kvapp (FTypeName "Request") C10_sample =
-    bytes_of_hex ("07000000" ++ "01000000" ++ "01000000" ++ "0500000000000000" ++ "6b2f00c3a9"
-                  ++ "0300000000000000" ++ "00ff80")%string /\
-  has_type_b Registry_kvapp (FTypeName "Request") (VList [VInt 7; VEnum 9 VUnit]) = false.
+  has_type Registry_malapp (FTypeName "Request") C10_sample /\
+  encode Registry_malapp (FTypeName "Request") C10_sample =
+    bytes_of_hex ("07000000" ++ "00000000" ++ "09000000" ++ "0300000000000000" ++ "6bc3a9")%string /\
+  has_type_b Registry_malapp (FTypeName "Request") (VList [VInt 7; VEnum 0 (VList [VInt 9; VB "6bc3"])]) = false /\
+  has_type_b Registry_malapp (FTypeName "Request") (VList [VInt 7; VEnum 9 VUnit]) = false.
 Proof. vm_compute. repeat split. Qed.
